@@ -26,6 +26,20 @@ def _task(name):
     return _app().get_task(TaskId(__name__, name))
 
 
+LATE_OK = [False]   # set by the harness once this process has already read a failed invocation (see checks/c19.py: prime)
+
+
+def late_class():
+    """a RetryError subclass that only comes into existence late in the life of the process (a plugin module imported lazily,
+    after failures of other types have already been stored and read)"""
+    cls = globals().get("LateRetry")
+    if cls is None:
+        from pynenc.exceptions import RetryError
+        cls = type("LateRetry", (RetryError,), {"__module__": __name__, "__qualname__": "LateRetry"})
+        globals()["LateRetry"] = cls
+    return cls
+
+
 def _plus(r, n):
     return None if r is None else r + n
 
@@ -68,6 +82,8 @@ def _impl(spec):
         return None if spec.get("ret_none") else total
     if action == "RetryError":
         raise RetryError(f"node {nid} attempt {attempt}")
+    if action == "LateRetry":
+        raise late_class()(f"node {nid} attempt {attempt}")
     raise EXC[action](f"node {nid}", attempt)
 
 
@@ -152,7 +168,7 @@ def model_run(spec, counts):
     fn = spec["fn"]
     base = DIRECT_VARIANTS.get("d_" + fn, fn) if spec.get("as_direct") else fn
     max_retries, rf = VARIANTS[fn]
-    retriable = {"RetryError"} | set(rf)
+    retriable = {"RetryError", "LateRetry"} | set(rf)
     tries = 0
     while True:
         tries += 1
@@ -167,7 +183,7 @@ def model_run(spec, counts):
             action = spec["script"][min(attempt - 1, len(spec["script"]) - 1)]
             if action == "return":
                 return None if spec.get("ret_none") else total
-            raise ModelFail(action, (f"node {spec['id']} attempt {attempt}",) if action == "RetryError" else (f"node {spec['id']}", attempt))
+            raise ModelFail(action, (f"node {spec['id']} attempt {attempt}",) if action in ("RetryError", "LateRetry") else (f"node {spec['id']}", attempt))
         except ModelFail as e:
             if e.etype in retriable and tries <= max_retries:
                 continue
